@@ -69,19 +69,33 @@ type loopCtx struct {
 }
 
 type tr struct {
-	w       *World
-	u       *Unit
-	reg     map[string]*Unit
-	aux     []string
-	nloop   int
-	nvar    int
-	fail    string
-	loop    *loopCtx
-	used    map[string]bool // lean names in use
-	notes   []string
-	pre     []string        // effect recordings to be emitted before the statement being translated
-	noLit   map[string]bool // Go variables carried by a loop: never bound to a literal
-	commaOk bool            // translating the right-hand side of `v, ok := m[k]`
+	w         *World
+	u         *Unit
+	reg       map[string]*Unit
+	aux       []string
+	nloop     int
+	nvar      int
+	fail      string
+	loop      *loopCtx
+	used      map[string]bool // lean names in use
+	notes     []string
+	pre       []string        // effect recordings to be emitted before the statement being translated
+	noLit     map[string]bool // Go variables carried by a loop: never bound to a literal
+	commaOk   bool            // translating the right-hand side of `v, ok := m[k]`
+	closure   *closureCtx     // translating the body of a function literal
+	nclos     int
+	mapVal    *mapValBind // value variable of a map range being rewritten to a key-list range
+	depth     int         // nesting of on-demand helper translation
+	extraFree []string    // identifiers of the ranged map expression (free in the rewritten loop)
+}
+
+type closureCtx struct {
+	state []string // captured variables the closure assigns (Go names)
+}
+
+type mapValBind struct {
+	name, lean, key string
+	t               LT
 }
 
 func (t *tr) takePre() string {
@@ -169,7 +183,7 @@ func (t *tr) importName(x ast.Expr) (string, bool) {
 		return "", false
 	}
 	switch id.Name {
-	case "types", "math", "sdk", "sdkerrors", "errors", "errcode", "fmt", "collections", "time", "sort", "strconv", "banktypes", "telemetry":
+	case "types", "math", "sdk", "sdkerrors", "errorsmod", "errors", "errcode", "fmt", "collections", "time", "sort", "strconv", "banktypes", "telemetry":
 		return id.Name, true
 	}
 	return "", false
@@ -490,6 +504,9 @@ func (t *tr) call(e *ast.CallExpr, en env) V {
 		if fn, ok := funcs[f.Name]; ok {
 			return t.apply(fn, nil, e.Args, en)
 		}
+		if u := t.autoUnit("", f.Name, e.Args, en); u != nil {
+			return t.unitCall(u, nil, e.Args, en)
+		}
 		return t.bad("call of %s", f.Name)
 	case *ast.SelectorExpr:
 		if imp, ok := t.importName(f.X); ok {
@@ -500,7 +517,7 @@ func (t *tr) call(e *ast.CallExpr, en env) V {
 				if fn, ok := funcs[imp+"."+f.Sel.Name]; ok {
 					return t.apply(fn, nil, e.Args, en)
 				}
-				if imp == "sdkerrors" || imp == "fmt" || imp == "errors" || imp == "errcode" {
+				if imp == "sdkerrors" || imp == "errorsmod" || imp == "fmt" || imp == "errors" || imp == "errcode" {
 					return V{"true", "Err"} // constructing an error value
 				}
 				return t.bad("call of %s.%s", imp, f.Sel.Name)
@@ -512,6 +529,11 @@ func (t *tr) call(e *ast.CallExpr, en env) V {
 		}
 		if m, ok := methods[recv.T+"."+f.Sel.Name]; ok {
 			return t.apply(m, &recv, e.Args, en)
+		}
+		if recv.T == "Keeper" {
+			if u := t.autoUnit("Keeper", f.Sel.Name, e.Args, en); u != nil {
+				return t.unitCall(u, &recv, e.Args, en)
+			}
 		}
 		return t.bad("method %s on %s", f.Sel.Name, recv.T)
 	}
@@ -543,6 +565,9 @@ func (t *tr) apply(fn fnSpec, recv *V, args []ast.Expr, en env) V {
 }
 
 func (t *tr) unitCall(u *Unit, recv *V, args []ast.Expr, en env) V {
+	if u.failed != "" {
+		return t.bad("calls %s, which is not translatable (%s)", u.Name, u.failed)
+	}
 	// positional sources: receiver (if any) then the call arguments, translated lazily so
 	// that dropped parameters (ctx, the keeper itself) are never looked at
 	type src struct {
@@ -598,8 +623,17 @@ func (t *tr) unitCall(u *Unit, recv *V, args []ast.Expr, en env) V {
 			t.pre = append(t.pre, fmt.Sprintf("let %s := %s ++ %s\n", ev.lean, ev.lean, callL))
 			return V{"()", "Unit"}
 		}
-		t.pre = append(t.pre, fmt.Sprintf("let %s := %s\nlet %s := %s ++ %s.2\n", tmp, callL, ev.lean, ev.lean, tmp))
-		return V{tmp + ".1", u.retType()}
+		// the callee's result is (r1, …, rn, effects)
+		effProj := tmp + strings.Repeat(".2", len(u.Ret))
+		t.pre = append(t.pre, fmt.Sprintf("let %s := %s\nlet %s := %s ++ %s\n", tmp, callL, ev.lean, ev.lean, effProj))
+		if len(u.Ret) == 1 {
+			return V{tmp + ".1", u.retType()}
+		}
+		var comps []string
+		for i := range u.Ret {
+			comps = append(comps, tmp+strings.Repeat(".2", i)+".1")
+		}
+		return V{"(" + strings.Join(comps, ", ") + ")", u.retType()}
 	}
 	return V{callL, u.retType()}
 }
@@ -619,6 +653,8 @@ func (u *Unit) retType() LT {
 
 func leanType(t LT) string {
 	switch {
+	case t == "Coins":
+		return "(List Coin)"
 	case t == "Bal":
 		return "(Denom → Int)"
 	case t == "BankFn":
@@ -656,6 +692,26 @@ func leanTypeAtom(t LT) string {
 
 // ret renders a `return` of the enclosing function.
 func (t *tr) ret(s *ast.ReturnStmt, en env) string {
+	if t.closure != nil {
+		if len(s.Results) != 1 {
+			return t.failf("closure return arity")
+		}
+		v := t.expr(s.Results[0], en)
+		if v.T != "Bool" {
+			return t.failf("closure returns %s", v.T)
+		}
+		var st []string
+		for _, n := range t.closure.state {
+			st = append(st, en.m[n].lean)
+		}
+		stt := "()"
+		if len(st) == 1 {
+			stt = st[0]
+		} else if len(st) > 1 {
+			stt = "(" + strings.Join(st, ", ") + ")"
+		}
+		return t.takePre() + "(" + v.L + ", " + stt + ")"
+	}
 	var vals []string
 	if len(s.Results) == 0 && len(t.u.Ret) > 0 {
 		// naked return of named results
@@ -765,6 +821,11 @@ func (t *tr) stmts(list []ast.Stmt, en env, k cont) string {
 			return t.failf("expression statement %T", s.X)
 		}
 		callee := t.w.render(call.Fun)
+		if callee == "sort.Search" && len(call.Args) == 2 {
+			if fl, ok := call.Args[1].(*ast.FuncLit); ok {
+				return t.sortSearch(call.Args[0], fl, en, next)
+			}
+		}
 		if ignoredCalls[callee] || strings.HasSuffix(callee, ".EmitEvents") || strings.HasSuffix(callee, ".EmitEvent") {
 			return next(en)
 		}
@@ -1116,6 +1177,10 @@ func (t *tr) assign0(s *ast.AssignStmt, en env) (string, env) {
 				if old.t == "Err" && v.T == "Nil" {
 					v = V{"false", "Err"}
 				}
+				if v.T == "Option "+old.t {
+					t.notes = append(t.notes, "a pointer known to be non-nil at the assignment (it is guarded by `!= nil`) is dereferenced")
+					v = V{"((" + v.L + ").getD default)", old.t}
+				}
 				if old.t == "Err" && v.L == "false" && !t.noLit[l.Name] {
 					en.m[l.Name] = evar{"false", "Err", old.depth}
 					continue
@@ -1299,6 +1364,9 @@ func (t *tr) rangeLoop(s *ast.RangeStmt, en env, next cont) string {
 	if s.Tok != token.DEFINE && s.Tok != token.ILLEGAL {
 		return t.failf("range with assignment")
 	}
+	if keys, ok := t.u.MapKeys[t.w.render(s.X)]; ok {
+		return t.mapRange(s, keys, en, next)
+	}
 	xs := t.expr(s.X, en)
 	if strings.HasPrefix(xs.T, "Option List ") {
 		xs = V{"((" + xs.L + ").getD [])", strings.TrimPrefix(xs.T, "Option ")} // ranging over a missing map entry = nil slice
@@ -1343,6 +1411,10 @@ func (t *tr) rangeLoop(s *ast.RangeStmt, en env, next cont) string {
 	if t.u.EffectsOn {
 		fi["effs__"] = true
 	}
+	for _, x := range t.extraFree {
+		fi[x] = true
+	}
+	t.extraFree = nil
 	// oracle values are reached through the call table, not through identifiers
 	ast.Inspect(s.Body, func(n ast.Node) bool {
 		if ce, ok := n.(*ast.CallExpr); ok {
@@ -1411,6 +1483,13 @@ func (t *tr) rangeLoop(s *ast.RangeStmt, en env, next cont) string {
 	} else {
 		elName = "_"
 	}
+	mvPre := ""
+	if mv := t.mapVal; mv != nil {
+		t.mapVal = nil
+		var ln string
+		ben, ln = t.declare(ben, mv.name, mv.t)
+		mvPre = fmt.Sprintf("let %s : %s := %s\n", ln, leanType(mv.t), strings.ReplaceAll(mv.lean, "%s", elName))
+	}
 	stateTuple := func(en env) string {
 		var parts []string
 		for _, n := range state {
@@ -1455,7 +1534,7 @@ func (t *tr) rangeLoop(s *ast.RangeStmt, en env, next cont) string {
 		done:  func(e2 env) string { return "Loop.done " + atom(stateTuple(e2)) },
 		outer: outer,
 	}
-	body := t.stmts(s.Body.List, ben, recCall)
+	body := mvPre + t.stmts(s.Body.List, ben, recCall)
 	t.loop = outer
 
 	retT := leanTypeAtom(t.fullRet())
@@ -1495,6 +1574,117 @@ func (t *tr) rangeLoop(s *ast.RangeStmt, en env, next cont) string {
 		stateTuple(en), indent(next(en)))
 }
 
+// mapRange: `for k, v := range m` over a Go map.  The iteration order of a Go map is not
+// defined; the unit table names an ORACLE parameter holding the keys in the order this
+// execution happens to visit them, and the tie theorem quantifies over every enumeration.
+func (t *tr) mapRange(s *ast.RangeStmt, keys string, en env, next cont) string {
+	kv, ok := en.m[keys]
+	if !ok || !strings.HasPrefix(kv.t, "List ") {
+		return t.failf("map range: key oracle %s unbound", keys)
+	}
+	m := t.expr(s.X, en)
+	if !strings.HasPrefix(m.T, "Map ") {
+		return t.failf("map range over %s", m.T)
+	}
+	_, vt := mapTypes(m.T)
+	z, okz := zeroByLean[vt]
+	if !okz {
+		return t.failf("zero value of %s", vt)
+	}
+	// rewrite as a range over the key list with the value read at the top of the body
+	body := &ast.BlockStmt{List: s.Body.List}
+	rs := &ast.RangeStmt{Key: &ast.Ident{Name: "_"}, Value: s.Key, Tok: token.DEFINE, X: &ast.Ident{Name: keys}, Body: body}
+	t.extraFree = nil
+	for x := range freeIdents(s.X) {
+		t.extraFree = append(t.extraFree, x)
+	}
+	if s.Value != nil && identName(s.Value) != "_" {
+		t.mapVal = &mapValBind{name: identName(s.Value), lean: fmt.Sprintf("((%s %%s).getD %s)", m.L, z), t: vt, key: identName(s.Key)}
+	}
+	return t.rangeLoop(rs, en, next)
+}
+
+// sortSearch: `sort.Search(n, func(i int) bool { … })` where the closure assigns captured
+// variables.  The closure body becomes an auxiliary definition `(i, state) ↦ (result, state')`
+// and the call becomes `Go.sortSearch n closure state` (Go's binary search, Tables/GoSemMatch.lean).
+func (t *tr) sortSearch(nExpr ast.Expr, fl *ast.FuncLit, en env, next cont) string {
+	n := t.expr(nExpr, en)
+	if n.T != "Int" {
+		return t.failf("sort.Search bound of type %s", n.T)
+	}
+	pre := t.takePre()
+	ps := paramNames(fl.Type.Params)
+	if len(ps) != 1 {
+		return t.failf("sort.Search closure arity")
+	}
+	state := assignedOuter(fl.Body, en, t.u.Alias)
+	isState := map[string]bool{}
+	for _, x := range state {
+		isState[x] = true
+	}
+	fi := freeIdents(fl.Body)
+	var frees []string
+	for x := range fi {
+		if v, ok := en.m[x]; ok && !isState[x] && v.t != "Keeper" && v.lean != "false" && v.lean != "true" {
+			frees = append(frees, x)
+		}
+	}
+	sort.Strings(frees)
+	t.nclos++
+	name := fmt.Sprintf("%s.closure%d", t.u.Name, t.nclos)
+	cen := en.deeper()
+	var params, callArgs, stTypes, stNames []string
+	for _, x := range frees {
+		v := en.m[x]
+		params = append(params, fmt.Sprintf("(%s : %s)", v.lean, leanType(v.t)))
+		callArgs = append(callArgs, v.lean)
+	}
+	var iName string
+	cen, iName = t.declare(cen, ps[0], "Int")
+	params = append(params, fmt.Sprintf("(%s : Int)", iName))
+	for _, x := range state {
+		v := en.m[x]
+		params = append(params, fmt.Sprintf("(%s : %s)", v.lean, leanType(v.t)))
+		stTypes = append(stTypes, leanTypeAtom(v.t))
+		stNames = append(stNames, v.lean)
+	}
+	stType, stTuple := "Unit", "()"
+	if len(stTypes) == 1 {
+		stType, stTuple = stTypes[0], stNames[0]
+	} else if len(stTypes) > 1 {
+		stType, stTuple = "("+strings.Join(stTypes, " × ")+")", "("+strings.Join(stNames, ", ")+")"
+	}
+	oldLoop, oldClos := t.loop, t.closure
+	t.loop, t.closure = nil, &closureCtx{state: state}
+	body := t.stmts(fl.Body.List, cen, func(env) string { return t.failf("closure can fall off its end") })
+	t.loop, t.closure = oldLoop, oldClos
+	t.aux = append(t.aux, fmt.Sprintf("def %s %s : (Bool × %s) :=\n%s\n", name, strings.Join(params, " "), stType, indent(body)))
+	lam := fmt.Sprintf("(fun i__ s__ => %s %s i__ %s)", name, strings.Join(callArgs, " "), "s__")
+	if len(stNames) > 1 {
+		var projs []string
+		for i := range stNames {
+			p := "s__" + strings.Repeat(".2", i)
+			if i < len(stNames)-1 {
+				p += ".1"
+			}
+			projs = append(projs, p)
+		}
+		lam = fmt.Sprintf("(fun i__ s__ => %s %s i__ %s)", name, strings.Join(callArgs, " "), strings.Join(projs, " "))
+	}
+	out := pre + fmt.Sprintf("let r__ := Go.sortSearch %s %s %s\n", atom(n.L), lam, stTuple)
+	for i, sn := range stNames {
+		p := "r__.2" + strings.Repeat(".2", i)
+		if len(stNames) > 1 && i < len(stNames)-1 {
+			p += ".1"
+		}
+		if len(stNames) == 1 {
+			p = "r__.2"
+		}
+		out += fmt.Sprintf("let %s := %s\n", sn, p)
+	}
+	return out + next(en)
+}
+
 func (t *tr) fullRet() LT {
 	rets := append([]LT{}, t.u.Ret...)
 	if t.u.EffectsOn {
@@ -1507,6 +1697,98 @@ func (t *tr) fullRet() LT {
 		return rets[0]
 	}
 	return "(" + strings.Join(rets, " × ") + ")"
+}
+
+// goResultTypes: result types of helper functions translated on demand
+var goResultTypes = map[string]LT{"error": "Err", "math.Int": "Int", "bool": "Bool", "math.LegacyDec": "Dec", "sdk.Coin": "Coin",
+	"types.Bid": "Bid", "int64": "Int", "uint64": "Int", "int": "Int", "sdk.AccAddress": "Acc", "string": "Acc", "time.Time": "Time"}
+
+// autoUnit translates, on demand, a helper function of the unit's own package that the unit
+// table does not list (a refactoring that extracts a helper must not make its callers
+// untranslatable): parameter types are taken from the call site, result types from the Go
+// signature, and the caller's oracle / effect declarations are inherited.
+func (t *tr) autoUnit(recvName, fname string, args []ast.Expr, en env) *Unit {
+	p := t.w.mustPkg(t.u.Pkg)
+	var fd funcDecl
+	var ok bool
+	if recvName != "" {
+		fd, ok = p.methods[recvName][fname]
+	} else {
+		fd, ok = p.funcs[fname]
+	}
+	if !ok || fd.decl.Body == nil || t.depth > 3 {
+		return nil
+	}
+	u := &Unit{Group: t.u.Group, Pkg: t.u.Pkg, Recv: recvName, Func: fname, Calls: t.u.Calls, Idents: t.u.Idents,
+		EffectsOn: t.u.EffectsOn, Alias: t.u.Alias, MapKeys: t.u.MapKeys}
+	key := "." + fname
+	if recvName != "" {
+		u.RecvLean = "Keeper"
+		key = "Keeper." + fname
+		rn := "_recv"
+		if fd.decl.Recv != nil && len(fd.decl.Recv.List) == 1 && len(fd.decl.Recv.List[0].Names) == 1 {
+			rn = fd.decl.Recv.List[0].Names[0].Name
+		}
+		u.Params = append(u.Params, gparam{Go: rn, T: "Keeper"})
+	}
+	names := paramNames(fd.decl.Type.Params)
+	if len(names) != len(args) {
+		return nil
+	}
+	i := 0
+	for _, f := range fd.decl.Type.Params.List {
+		ty := t.w.render(f.Type)
+		for range f.Names {
+			if ty == "context.Context" || ty == "sdk.Context" {
+				u.Params = append(u.Params, gparam{Go: names[i]})
+			} else {
+				sub := &tr{w: t.w, u: t.u, reg: t.reg, used: map[string]bool{}}
+				v := sub.expr(args[i], en)
+				if sub.fail != "" {
+					return nil
+				}
+				u.Params = append(u.Params, gparam{Go: names[i], T: v.T})
+			}
+			i++
+		}
+	}
+	for _, pp := range t.u.Params {
+		if pp.Oracle {
+			u.Params = append(u.Params, pp)
+		}
+	}
+	if fd.decl.Type.Results != nil {
+		for _, f := range fd.decl.Type.Results.List {
+			rt, ok := goResultTypes[t.w.render(f.Type)]
+			if !ok {
+				return nil
+			}
+			n := len(f.Names)
+			if n == 0 {
+				n = 1
+			}
+			for j := 0; j < n; j++ {
+				u.Ret = append(u.Ret, rt)
+				if len(f.Names) > 0 {
+					u.Named = append(u.Named, f.Names[j].Name)
+					if u.NamedTypes == nil {
+						u.NamedTypes = map[string]LT{}
+					}
+					u.NamedTypes[f.Names[j].Name] = rt
+				}
+			}
+		}
+	}
+	u.Name = t.u.Name + "__" + fname
+	sub := &tr{w: t.w, u: u, reg: t.reg, depth: t.depth + 1}
+	text := sub.translate(fd)
+	if sub.fail != "" {
+		return nil
+	}
+	t.aux = append(t.aux, "-- helper translated on demand (not in the unit table); unfolded by simp and grind\n"+strings.Replace(text, "\ndef ", "\n@[simp, grind] def ", 1))
+	t.notes = append(t.notes, "helper "+fname+" translated on demand")
+	t.reg[key] = u
+	return u
 }
 
 // recordEffect renders `effs := effs ++ [GEff.mk name args]` for a call the unit table
@@ -1664,9 +1946,10 @@ var groupDeps = map[string][]string{
 	"Auctions": {"Pure"},
 	"Settle":   {"Pure"},
 	"Match":    {"Pure"},
+	"Server":   {"Pure", "Msgs", "Bids", "Auctions"},
 }
 
-var groupOrder = []string{"Pure", "Msgs", "Bids", "Auctions", "Settle", "Match"}
+var groupOrder = []string{"Pure", "Msgs", "Bids", "Auctions", "Settle", "Match", "Server"}
 
 // translateUnits renders Generated/Code/<Group>.lean, one file per group of units.
 func (w *World) translateUnits() map[string]string {
@@ -1707,9 +1990,13 @@ func (w *World) translateUnits() map[string]string {
 			t := &tr{w: w, u: u, reg: reg}
 			if !ok {
 				fmt.Fprintf(&b, "/-- %s%s: function not found in %s -/\ndef %s : Untranslated := ⟨\"function not found\"⟩\n\n", recvPrefix(u), u.Func, u.Pkg, u.Name)
+				u.failed = "function not found"
 				continue
 			}
 			b.WriteString(t.translate(fd))
+			if t.fail != "" {
+				u.failed = t.fail
+			}
 			if len(t.notes) > 0 {
 				seen := map[string]bool{}
 				for _, nt := range t.notes {
